@@ -690,7 +690,8 @@ SPEC = Spec(
         "handlers, one name is used for argument, binding and code; the parameter "
         "list, kw_defaults and expected_arguments come from one collection; only "
         "keyword-only parameters. R14-UNSUPPORTED: unsupported kinds raise. "
-        "R14-CONSUME also: every array-creating emission (zeros, ones, full, *_like) spells out dtype=expr.dtype unless guarded by a test for the default float dtype. R14-UNSUPPORTED also: integer tests on shape components and indices use INT_CLASSES."),
+        "R14-CONSUME also: every array-creating emission (zeros, ones, full, *_like) spells out dtype=expr.dtype unless guarded by a test for the default float dtype. R14-UNSUPPORTED also: integer tests on shape components and indices use INT_CLASSES. "
+        "R14-TABLES also (case table of the scalar-operand emitter): a scalar reaches ast.Constant, i.e. its repr, only where it is known to be finite and not negative; non-finite scalars are built from their string form, negative ones get an explicit unary minus (the one use of a Python operator outside the table that is admitted: its operand is a constant)."),
     not_decided=(
         "That the generated function returns NumPy's values (needs running it); "
         "slice re-synthesis correctness; dtype preservation through dropped casts; "
